@@ -211,7 +211,7 @@ class Interp:
     def call_func(self, f, args):
         self.tick()
         self.stats['calls'] += 1
-        if len(self.frames) > 200:
+        if len(self.frames) > 60:
             raise Budget()
         scope = {}
         for p, a in zip(f.params, args):
@@ -589,7 +589,13 @@ class Interp:
         if len(cands) == 1:
             return cands[0]
         self.stats['overload'] += 1
-        at = [a.t for a in args]
+        at = []
+        for a in args:
+            a0 = a
+            while isinstance(a0, Paren):
+                a0 = a0.e
+            # an array literal's preferred type is the const array of its element type
+            at.append(arr(a0.t[1], True) if isinstance(a0, ArrLit) and is_arr(a0.t) else a0.t)
         for f in cands:
             if len(f.params) == len(args) and all(self.param_type(p) == t for p, t in zip(f.params, at)):
                 return f
@@ -657,7 +663,7 @@ def run_reference(prog, argv, ws=2, checked=True, budget=200_000, max_flips=5000
             if flips > max_flips or total > budget:
                 return Outcome('budget', [], it.stats)
             continue
-        except Budget:
+        except (Budget, RecursionError):
             return Outcome('budget', [], it.stats)
         except Undefined as u:
             return Outcome('undefined:' + u.why, it.events, it.stats)
